@@ -2283,7 +2283,7 @@ func ExtractHTTPResponse(response *http.Response) (contents []byte, err error) {
 }
 
 // PassThroughQuery runs a passthrough query on a single peer and appends the result.
-func (p *Peer) PassThroughQuery(ctx context.Context, res *Response, passthroughRequest *Request, virtualColumns []*Column, columnsIndex map[*Column]int) {
+func (p *Peer) PassThroughQuery(ctx context.Context, res *Response, passthroughRequest *Request, virtualColumns []*Column, virtualIndex []int) {
 	req := res.request
 	// do not use Query here, might be a log query with log
 	result, _, queryErr := p.query(ctx, passthroughRequest)
@@ -2310,7 +2310,7 @@ func (p *Peer) PassThroughQuery(ctx context.Context, res *Response, passthroughR
 			row := &(result[rowNum])
 			for j := range virtualColumns {
 				col := virtualColumns[j]
-				i := columnsIndex[col]
+				i := virtualIndex[j]
 				*row = append(*row, 0)
 				copy((*row)[i+1:], (*row)[i:])
 				(*row)[i] = tmpRow.GetValueByColumn(col)
